@@ -1,5 +1,8 @@
 import Rustemo.Props.C01
 import Rustemo.Props.C03
+import Rustemo.Proofs.GlrRun11
+import Rustemo.Proofs.GlrElideEq
+import Rustemo.Proofs.GlrExampleDet
 /-!
 # C07 — LR and GLR parsers built from the same deterministic grammar agree
 
@@ -7,7 +10,14 @@ import Rustemo.Props.C03
 accepts exactly the inputs the LR parser accepts, with exactly one solution, equal to the LR tree up to
 elided nullable tails, with the same spans.
 
-PARTIAL.  Proved here: for a certified deterministic table the LR parser accepts exactly the
+Proved in the second half of this file (section "The two engines"), for TWO tables of ONE grammar — `t_lr` passing
+`certC01` (deterministic), `env.t` passing `Cert.glr ∧ Cert.completeRN` (right-nulled) — and under the token-level
+lexer hypothesis `LexDet` for the GLR run: `C07_glr_accepts_iff_lr_accepts` and
+`C07_glr_trees_are_elisions_of_the_lr_tree`.  NOT proved: "exactly one solution" as a COUNT (needs the engine's
+no-duplicates statement, C03 (c)); equality of spans / token values (the relation `Tree.EqElide` ignores decorations;
+spans are compared on every generated input); that the GLR run ends (`ok` rather than `timeout`).
+
+First half (older, about the LR side and the forest API): for a certified deterministic table the LR parser accepts exactly the
 sentences (C01) and the tree it returns is **the only** derivation tree of the input
 (`C07_lr_tree_is_the_unique_derivation`); and the forest API enumerates each tree of the forest
 exactly once (C03).  Hence *if* the GLR forest contains exactly the derivation trees of the input
@@ -56,5 +66,122 @@ theorem C07_single_solution_is_lr_tree (g : Grammar) (t : Table) (hcert : certC0
     have hy := hall y (by simp)
     rw [List.nodup_cons] at hnd
     exact hnd.1 (by rw [hx, ← hy]; simp)
+
+/-! ## The two engines: GLR on the right-nulled table against LR on the deterministic table
+
+Hypotheses of both theorems, stated once: `g` is the grammar; `t_lr` is a table of `g` that passes `certC01` (what the
+LR parser of a conflict-free grammar runs on: LALR / LALR_PAGER); `env` is the GLR environment (any recognizers, any
+lexer configuration) with `env.g = g` whose table `env.t` (LALR_RN) passes `Cert.glr` and `Cert.completeRN`; the GLR
+run is token-deterministic: `LexDet env pp fuel n tok P L` (n tokens `tok 0 … tok (n-1)` and the STOP token `tok n`;
+every head of level `i` is offered exactly `tok i` iff its state has an action on that kind).  `w` = the token kinds,
+the input of the token-level LR machine `tparse` of C01. -/
+
+open Rustemo.Glr Rustemo.Props.C03
+
+/-- the token kinds of a `LexDet` run -/
+def kinds (n : Nat) (tok : Nat → Tok) : List Nat := (List.range n).map (fun i => (tok i).kind)
+
+theorem kinds_eq (n : Nat) (tok : Nat → Tok) : kinds n tok = kindsOf tok 0 n := by
+  unfold kinds kindsOf; rw [List.range_eq_range']; rfl
+
+theorem kinds_ne_zero {env : Env} {pp : Bool} {fuel n : Nat} {tok : Nat → Tok} {P L : Nat → Pos}
+    (hL : LexDet env pp fuel n tok P L) : ∀ x ∈ kinds n tok, x ≠ 0 := by
+  intro x hx
+  unfold kinds at hx
+  rw [List.mem_map] at hx
+  obtain ⟨i, hi, rfl⟩ := hx
+  have := (hL.terms i (List.mem_range.mp hi)).1
+  omega
+
+/-- **GLR accepts iff LR accepts.**  (→) if the GLR parser returns a forest from which ANY tree can be taken, the LR
+    machine accepts the token string; (←) if the LR machine accepts, the GLR parser does NOT return an error, and
+    every forest it returns (acyclic unfolding) yields a tree.  Not claimed: that the GLR run ends (`ok` rather than
+    out of fuel). -/
+theorem C07_glr_accepts_iff_lr_accepts (g : Grammar) (t_lr : Table) (hlr : certC01 g t_lr = true)
+    (env : Env) (hg : env.g = g) (hcert : Cert.glr env.g env.t = true) (hcomp : Cert.completeRN env.g env.t = true)
+    (pp : Bool) (fuel n : Nat) (tok : Nat → Tok) (P L : Nat → Pos) (hL : LexDet env pp fuel n tok P L) :
+    ((∃ r i tr, Glr.parse env pp fuel = .ok r ∧ r.getTree i = some tr) →
+      ∃ f lt, tparse g t_lr (kinds n tok) f = .accept lt) ∧
+    ((∃ f lt, tparse g t_lr (kinds n tok) f = .accept lt) →
+      (∀ e, Glr.parse env pp fuel ≠ .err e) ∧
+      ∀ r, Glr.parse env pp fuel = .ok r → r.droots.hasCut = false → ∃ i tr, r.getTree i = some tr) := by
+  obtain ⟨hC, hW⟩ := Cert.completeRN_sound _ _ hcomp
+  have hT := tableOk_of_cert env hcert
+  constructor
+  · rintro ⟨r, i, tr, hr, hi⟩
+    obtain ⟨hve, hy⟩ := parse_trees hT hC hW hL hr hi
+    obtain ⟨full, hv, hfy, _⟩ := Tree.complete_elided env.g tr _ hve
+    rw [hg] at hv
+    exact (C01_lr_accepts_exactly g t_lr hlr _ (kinds_ne_zero hL)).mpr
+      ⟨full, hv, by rw [hfy, hy, kinds_eq]⟩
+  · rintro ⟨f, lt, hlt⟩
+    obtain ⟨hv, hy⟩ := C01_accepted_is_sentence g t_lr hlr _ (kinds_ne_zero hL) f lt hlt
+    rw [← hg] at hv
+    obtain ⟨h1, h2⟩ := C03_engine_complete env hcert hcomp pp fuel n tok P L hL lt hv hy
+    refine ⟨h1, ?_⟩
+    intro r hr hc
+    obtain ⟨i, tr, hi, _⟩ := h2 r hr hc
+    exact ⟨i, tr, hi⟩
+
+/-- **Every tree of the GLR forest is the LR tree modulo elision.**  If the LR machine accepts the token string with
+    tree `lt`, then every tree `tr` that any index of any forest returned by the GLR parser gives is equal to `lt` up
+    to decorations and trailing children of empty yield (`Tree.EqElide lt tr`): same productions, same token kinds, in
+    the same shape, except for right ends elided by right-nulled reductions.  (Uniqueness of the derivation tree of a
+    certified deterministic grammar + engine soundness + "the leaves of a GLR tree are the whole token string".) -/
+theorem C07_glr_trees_are_elisions_of_the_lr_tree (g : Grammar) (t_lr : Table) (hlr : certC01 g t_lr = true)
+    (env : Env) (hg : env.g = g) (hcert : Cert.glr env.g env.t = true) (hcomp : Cert.completeRN env.g env.t = true)
+    (pp : Bool) (fuel n : Nat) (tok : Nat → Tok) (P L : Nat → Pos) (hL : LexDet env pp fuel n tok P L)
+    (f : Nat) (lt : Tree) (hlt : tparse g t_lr (kinds n tok) f = .accept lt)
+    (r : GlrResult) (hr : Glr.parse env pp fuel = .ok r) (i : Nat) (tr : Tree) (hi : r.getTree i = some tr) :
+    Tree.EqElide lt tr := by
+  obtain ⟨hC, hW⟩ := Cert.completeRN_sound _ _ hcomp
+  have hT := tableOk_of_cert env hcert
+  obtain ⟨hve, hy⟩ := parse_trees hT hC hW hL hr hi
+  obtain ⟨full, hv, hfy, hel⟩ := Tree.complete_elided env.g tr _ hve
+  rw [hg] at hv
+  have := C07_lr_tree_is_the_unique_derivation g t_lr hlr _ f lt hlt full hv (by rw [hfy, hy, kinds_eq])
+  rw [← this]
+  exact Tree.eqElide_plain full tr (Tree.eqElide_of_elidedFrom full tr hel)
+
+/-- hence any two trees of GLR forests of one input are equal modulo elision to ONE full derivation tree (the forest
+    holds one derivation; that it holds it ONCE is C03's no-duplicates statement, not proved) -/
+theorem C07_glr_trees_share_the_lr_tree (g : Grammar) (t_lr : Table) (hlr : certC01 g t_lr = true)
+    (env : Env) (hg : env.g = g) (hcert : Cert.glr env.g env.t = true) (hcomp : Cert.completeRN env.g env.t = true)
+    (pp : Bool) (fuel n : Nat) (tok : Nat → Tok) (P L : Nat → Pos) (hL : LexDet env pp fuel n tok P L)
+    (r : GlrResult) (hr : Glr.parse env pp fuel = .ok r) (i j : Nat) (ti tj : Tree)
+    (hi : r.getTree i = some ti) (hj : r.getTree j = some tj) :
+    ∃ lt : Tree, lt.Valid g g.startIdx ∧ lt.yield = kinds n tok ∧ Tree.EqElide lt ti ∧ Tree.EqElide lt tj := by
+  obtain ⟨f, lt, hlt⟩ := (C07_glr_accepts_iff_lr_accepts g t_lr hlr env hg hcert hcomp pp fuel n tok P L hL).1
+    ⟨r, i, ti, hr, hi⟩
+  obtain ⟨hv, hy⟩ := C01_accepted_is_sentence g t_lr hlr _ (kinds_ne_zero hL) f lt hlt
+  exact ⟨lt, hv, hy,
+    C07_glr_trees_are_elisions_of_the_lr_tree g t_lr hlr env hg hcert hcomp pp fuel n tok P L hL f lt hlt r hr i ti hi,
+    C07_glr_trees_are_elisions_of_the_lr_tree g t_lr hlr env hg hcert hcomp pp fuel n tok P L hL f lt hlt r hr j tj hj⟩
+
+/-! ### non-vacuity: `S: A S | EMPTY; A: 'a'` with the two tables the real compiler builds (LALR_PAGER for LR, LALR_RN
+    for GLR; `Proofs/GlrExampleDet.lean`), input `aa` -/
+
+/-- the two-table hypothesis holds: one grammar, `certC01` of the LR table, `Cert.glr ∧ Cert.completeRN` of the RN
+    table (which differs: `reduce 1 1` on STOP in state 1) -/
+example : certC01 ExampleDet.g ExampleDet.tLR = true ∧ Cert.glr ExampleDet.g ExampleDet.tRN = true ∧
+    Cert.completeRN ExampleDet.g ExampleDet.tRN = true ∧
+    (ExampleDet.tLR.cell 1 0).length = 1 ∧ (ExampleDet.tRN.cell 1 0).length = 2 := by
+  decide +kernel
+
+/-- `LexDet` holds of the GLR run on `aa`; the token kinds are `[1, 1]` -/
+example : LexDet (ExampleDet.env 2) false 9 2 Example.tok Example.pos Example.pos ∧ kinds 2 Example.tok = [1, 1] :=
+  ⟨ExampleDet.lexDet_aa, by decide⟩
+
+/-- the LR machine accepts `[1, 1]` … -/
+example : (match tparse ExampleDet.g ExampleDet.tLR [1, 1] 20 with
+    | .accept _ => true
+    | _ => false) = true := by decide +kernel
+
+/-- … the GLR parser returns a forest with a tree (solutions = 1) … -/
+example : Example.solutionsOf (Glr.parse (ExampleDet.env 2) false 9) = some 1 := by decide +kernel
+
+/-- … and both theorems apply to this run. -/
+example := C07_glr_accepts_iff_lr_accepts ExampleDet.g ExampleDet.tLR (by decide +kernel) (ExampleDet.env 2) rfl
+  (by decide +kernel) (by decide +kernel) false 9 2 Example.tok Example.pos Example.pos ExampleDet.lexDet_aa
 
 end Rustemo.Props.C07
